@@ -21,6 +21,7 @@ EXPLANATION = (
 )
 EXPLANATION += ' R16.13: the declared codec name is normalised like tokenize._get_normal_name.  R16.14: the newline convention is captured after a read of the resource.'
 EXPLANATION += ' R16.12: the keyword search for the encoding declaration retries after a hit that no delimiter follows.'
+EXPLANATION += " R16.15: in the import tools the text of a statement is read without a leading byte order mark, and the rewritten module gets the mark of the original text back in front."
 ASSUMPTIONS = ["str.encode() without argument means utf-8 (language definition)",
                "codec aliases are compared through codecs.lookup of the running interpreter"]
 
@@ -68,6 +69,7 @@ def check(ctx, res) -> None:
     declaration_keyword_rule(ctx, res, "R16.12")
     codec_name_normalisation_rule(ctx, res, "R16.13")
     newline_capture_rule(ctx, res, "R16.14")
+    byte_order_mark_rule(ctx, res, "R16.15")
 
 
 def _check_main(ctx, res) -> None:
@@ -873,3 +875,54 @@ def newline_capture_rule(ctx, res, rule: str) -> None:
                 f"`{ast.unparse(st)}` can run although this File object never read the file (old_contents known: a change rebuilt from the saved history): None is captured, "
                 "saved with the change at the next close, and a later undo restores a CRLF file with LF line ends", function=do.qualname)
     res.floor(rule, "captures of the newline convention in do()", n, 1)
+
+
+def byte_order_mark_rule(ctx, res, rule: str) -> None:
+    """R16.15: rope decodes a UTF-8 file with its byte order mark as the first character of the text (U+FEFF), so that writing the text back
+    writes the mark back.  The mark is a signature of the FILE: it is not text of the statement on line 1.  The import tools are the code
+    that cuts whole lines out of a module and puts them somewhere else (sorting moves the first import down, an unused first import is
+    deleted).  Two necessary conditions, both read off the code: (a) where the text of an import statement is read from the line table,
+    a leading U+FEFF is taken off it (else the mark travels with the statement into the middle of the file: `invalid non-printable
+    character U+FEFF`); (b) the function that hands out the rewritten module puts the mark in front again when the original text started
+    with it and the result does not -- a test of the ORIGINAL source guards the concatenation (else the mark is lost with a deleted or
+    re-emitted first statement, and bytes outside the edit change)."""
+    idx = ctx.idx
+    modname = "rope.refactor.importutils.module_imports"
+    u = idx.units.get(modname)
+    if u is None:
+        raise AnalysisError(f"anchor={modname} not found")
+    bom_names = {t.id for a in u.tree.body if isinstance(a, ast.Assign) and isinstance(a.value, ast.Constant) and a.value.value == "\ufeff"
+                 for t in a.targets if isinstance(t, ast.Name)}
+
+    def is_bom(e) -> bool:
+        return (isinstance(e, ast.Constant) and e.value == "\ufeff") or (isinstance(e, ast.Name) and e.id in bom_names) \
+            or (isinstance(e, ast.Attribute) and e.attr in ("BOM_UTF8", "BOM"))
+
+    # (a) readers of statement text: functions that join lines taken from a line table (`get_line`) into one text
+    readers = [f for f in idx.functions.values() if f.unit is u and any(call_name(c) == "get_line" for c in calls_in(f.node))
+               and any(call_name(c) == "join" for c in calls_in(f.node)) and any(isinstance(r, ast.Return) for r in walk_local(f.node))]
+    if not readers:
+        raise AnalysisError("anchor=module_imports: the function that reads the text of an import statement from the line table not found")
+    for f in readers:
+        strips = any(isinstance(c.func, ast.Attribute) and c.func.attr in ("lstrip", "removeprefix", "replace") and c.args and is_bom(c.args[0]) for c in calls_in(f.node)) \
+            or any(isinstance(t, ast.Call) and call_name(t) == "startswith" and t.args and is_bom(t.args[0]) for t in ast.walk(f.node))
+        res.add(rule, f"{f.qualname.split('.', 4)[-1]}|statement-text-without-the-mark", strips, f.where,
+                "the text of a statement is read without a leading byte order mark" if strips else
+                f"{f.name} returns the lines of an import statement as they stand: for a file that starts with a UTF-8 byte order mark the first import's text begins with U+FEFF, and "
+                "when the statement is sorted below another import the mark moves into the middle of the file (SyntaxError: invalid non-printable character U+FEFF)", function=f.qualname)
+    # (b) the hand-out of the rewritten module
+    cls = idx.need_class(f"{modname}.ModuleImports")
+    out = cls.methods.get("get_changed_source")
+    if out is None:
+        raise AnalysisError("anchor=ModuleImports.get_changed_source not found")
+    cfg = CFG(out.node)
+    restores = False
+    for nd in cfg.nodes:
+        if nd.kind == "stmt" and nd.ast is not None and any(isinstance(b, ast.BinOp) and isinstance(b.op, ast.Add) and is_bom(b.left) for b in ast.walk(nd.ast)):
+            for t, pol in cfg.guards(nd.id):
+                if pol and isinstance(t, ast.Call) and call_name(t) == "startswith" and t.args and is_bom(t.args[0]) and "source_code" in ast.unparse(t.func):
+                    restores = True
+    res.add(rule, "ModuleImports.get_changed_source|the-mark-stays-in-front", restores, out.where,
+            "a byte order mark of the original text is put in front of the rewritten module again" if restores else
+            "get_changed_source hands out the rewritten module without restoring a byte order mark the original text started with: when the first statement of the file is an "
+            "import that is removed (or re-emitted), the mark is dropped -- bytes outside the edit change", function=out.qualname)
